@@ -17,7 +17,7 @@ pub struct C02;
 fn gen_buffers(r: &mut Rng, seed: u64) -> Case {
     const KEYS: &[&str] = &["a", "b", "c", "d", "e", "f", "g", "h", "i", "j", "k", "l", "m", "n", "o", "p", "q", "r", "s", "t", "u", "v", "w", "x", "y", "z", "1", "2", "3", "4", "5", "6", "7", "8", "9", "0"];
     let mut case = Case { prop: "C02".into(), seed, ..Default::default() };
-    let kind = *r.pick(&["wide-chord-v2", "wide-chord-v2", "wide-chord-v1", "oneshot-mods", "macros", "layers", "tapholds", "switch-depth", "degenerate", "degenerate", "accumulators", "many-active-chords", "huge-zippy-output"]);
+    let kind = *r.pick(&["wide-chord-v2", "wide-chord-v2", "wide-chord-v1", "oneshot-mods", "macros", "layers", "tapholds", "switch-depth", "degenerate", "degenerate", "accumulators", "many-active-chords", "huge-zippy-output", "layer-holds-itself"]);
     case.set("population", "mapped");
     case.set("buffers", kind);
     case.set("mode", if r.chance(500) { "blocking" } else { "ticking" });
@@ -172,6 +172,31 @@ fn gen_buffers(r: &mut Rng, seed: u64) -> Case {
             ops.push(Op::Press(code("f")));
             ops.push(Op::Gap(5));
             ops.push(Op::Release(code("f")));
+            ops.push(Op::Gap(100));
+        }
+        "layer-holds-itself" => {
+            // keys that hold the very layer they are on (several times) and contain several
+            // transparent items: with layer-stack resolution every further copy of the layer in
+            // the order repeats the whole action, once per transparent item
+            let n_trans = r.range(2, 7) as usize;
+            let n_hold = r.range(1, 3) as usize;
+            let act = format!("(multi {} {})", vec!["(layer-while-held l0)"; n_hold].join(" "), vec!["_"; n_trans].join(" "));
+            let keys = &KEYS[..6];
+            case.cfg = format!(
+                "(defcfg transparent-key-resolution {})\n(defsrc {})\n(deflayer l0 {})\n(deflayer l1 {})\n",
+                *r.pick(&["layer-stack", "layer-stack", "to-base-layer"]),
+                keys.join(" "),
+                vec![act.as_str(); keys.len()].join(" "),
+                vec!["_"; keys.len()].join(" ")
+            );
+            for k in keys.iter().take(r.range(2, 6) as usize) {
+                ops.push(Op::Press(code(k)));
+                ops.push(Op::Gap(*r.pick(&[0u32, 1, 5])));
+            }
+            for k in keys.iter() {
+                ops.push(Op::Release(code(k)));
+                ops.push(Op::Gap(1));
+            }
             ops.push(Op::Gap(100));
         }
         "accumulators" => {
